@@ -40,7 +40,8 @@ def run(ctx):
   prog = ctx.prog
   ctx.assume('T3')
   allowed_stores(ctx, 'C11.guards', {PARSE: set(), 'config._might_have_parameter': set(),
-                                     'config.bind_parameter': {'_CONFIG', '_CONFIG_PROVENANCE'}},
+                                     'config.bind_parameter': {'_CONFIG', '_CONFIG_PROVENANCE'},
+                                     'config.ParseContext.get_configurable': {'_REGISTRY'}},
                  'whether a key is acceptable must be decided against the registry as it is now; a remembered verdict survives '
                  're-registration, method re-homing and interactive redefinition')
   # ---- C11.validate-first
